@@ -8,3 +8,5 @@ for p in "$@"; do
   echo "$out" | grep '^VIOLATION' | cut -c1-260 | head -4
 done
 git -C /repo checkout -- .
+# leave the harness built against the clean tree
+(cd /verif/harness && cargo build --release --offline >/dev/null 2>&1)
